@@ -178,6 +178,11 @@ fn cfg_line(rot: &Option<String>, append: bool, cap: Option<u64>, symlink: bool,
 
 pub fn gen_hist(o: &Opts, r: &mut Rng, k: u64, tier: &str) -> Vec<String> {
     let mut c = vec![format!("CASE flw {} {}{k}", o.prop, ["", "bl", "bf", "ba", "bb"][o.bg as usize])];
+    // C15: the configured line ending (`use_windows_line_ending`) is part of what every write mode
+    // has to reproduce
+    let crlf = o.prop == "C15" && r.chance(1, 3);
+    if crlf { c.push("NOTE crlf".into()); }
+    let record = |seq: u64, len: u64| { let mut b = record(seq, len); if crlf { let n = b.len(); b.insert(n - 1, b'\r'); } b };
     if o.prop == "C09" && r.chance(2, 3) {
         // zones with an offset that is not a whole number of hours (and the extremes): fixed-offset
         // POSIX strings, no dependence on the zone database
@@ -485,7 +490,7 @@ pub fn gen_c04(tier: &str, seed: u64) -> Vec<Vec<String>> {
             }
         }
         // the point at which the logger ends: shutdown() or drop of the last handle; read immediately
-        c.push(if r.chance(1, 2) { "LSHUT".into() } else { "LDROPALL".into() });
+        c.push(match r.below(4) { 0 | 1 => "LDROPALL".into(), 2 => "LSHUT".into(), _ => "LSHUT2".to_string() });
         c.push("READ".into());
         c.push("PARTS".into());
         c.push("END".into());
